@@ -35,7 +35,7 @@ func VH_C11_U1_request_roundtrip() {
 	u1Conf()
 	numbers := []int{0, 1, 65535, 2147483647}
 	req := &Request{}
-	switch vrt.Choice("cmd", 6) {
+	switch vrt.Choice("cmd", 7) {
 	case 0:
 		req.Cmd = []string{"get", "gets"}[vrt.Choice("g", 2)]
 		n := 1 + vrt.Choice("nkeys", 3)
@@ -66,6 +66,19 @@ func VH_C11_U1_request_roundtrip() {
 		req.NoReply = vrt.Bool("noreply")
 	case 5:
 		req.Cmd = []string{"quit", "version", "stats", "flush_all"}[vrt.Choice("m", 4)]
+	case 6:
+		// multi-key get whose command line is around and beyond the 4096-byte default buffer
+		// of the connection's bufio.Reader (a legal request: every key is at most 250 bytes)
+		req.Cmd = []string{"get", "gets"}[vrt.Choice("g", 2)]
+		n := []int{16, 17, 18, 35}[vrt.Choice("nkeys-long", 4)]
+		for i := 0; i < n; i++ {
+			k := make([]byte, 240)
+			for j := range k {
+				k[j] = 'a' + byte((i+j)%26)
+			}
+			k[0] = keyBytes("k0", 1)[0]
+			req.Keys = append(req.Keys, string(k))
+		}
 	}
 	var buf bytes.Buffer
 	vrt.Assert("request-serialises", req.Write(&buf) == nil)
